@@ -68,6 +68,31 @@ def c05_align_wat():
     return "\n".join(out) + "\n"
 
 
+def c04_types_wat():
+    """many distinct function types, so that the types of multi-value blocks get indices at the LEB128 boundaries
+    (64 needs two bytes as a signed number, 128 as an unsigned one)"""
+    out = ["(module $c04types"]
+    tys = ["i32", "i64", "f32", "f64"]
+    def sig(k):
+        # k-th distinct parameter list over four value types (base-4 digits, length prefix)
+        ps, n = [], k
+        ln = 1
+        while n >= 4 ** ln:
+            n -= 4 ** ln
+            ln += 1
+        for _ in range(ln):
+            ps.append(tys[n % 4])
+            n //= 4
+        return " ".join(ps)
+    for k in range(130):
+        out.append("  (type $t%d (func (param %s)))" % (k, sig(k)))
+    for name, res in (("mv64", "i32 i64"), ("mv65", "i64 i32"), ("mv66", "f32 i32")):
+        out.append('  (func $%s (export "%s") (result i32)\n    block (result %s)\n      %s\n    end\n    drop\n    drop\n    i32.const 1\n  )' % (
+            name, name, res, "\n      ".join("%s.const 1" % t for t in res.split())))
+    out.append(")")
+    return "\n".join(out) + "\n"
+
+
 def split_functions(wat_text):
     """Split a generated one-function-per-entry module into (header lines, [function texts])."""
     lines = wat_text.split("\n")
